@@ -69,7 +69,7 @@ Print Assumptions C20_all_leaves_present.
 (* Every included key that the options ask to show is present as a text node. *)
 Theorem C20_all_keys_present : forall o v p sq tn cn fmt items k c t,
   sub_at v p (PNode sq tn cn fmt items) -> assoc_key k items = Some c ->
-  path_included o (p ++ [k]) = true -> key_shown_text o sq k c = Some t ->
+  path_included o (p ++ [k]) = true -> key_shown_text o sq (o_root_path o ++ p) k c = Some t ->
   In t (texts_of (tree_view o v)).
 Proof. exact all_keys_present. Qed.
 Print Assumptions C20_all_keys_present.
@@ -91,14 +91,14 @@ Print Assumptions C20_all_leaves_present_parsed.
 
 Theorem C20_all_keys_present_parsed : forall o v p sq tn cn fmt items k c t,
   sub_at v p (PNode sq tn cn fmt items) -> assoc_key k items = Some c ->
-  path_included o (p ++ [k]) = true -> key_shown_text o sq k c = Some t -> t <> [] ->
+  path_included o (p ++ [k]) = true -> key_shown_text o sq (o_root_path o ++ p) k c = Some t -> t <> [] ->
   exists d, parse_html (render (tree_view o v)) = Some d /\ In t (flat_map texts_of d).
 Proof. exact all_keys_present_parsed. Qed.
 Print Assumptions C20_all_keys_present_parsed.
 
 (* Unless summaries are switched off (enable_summary=False / enable_summary_for_str=False), every included key is shown. *)
-Theorem C20_default_summaries_show_every_key : forall o sq k c,
-  o_enable_summary o = None -> o_summary_for_str o = true -> exists t, key_shown_text o sq k c = Some t.
+Theorem C20_default_summaries_show_every_key : forall o sq path k c,
+  o_enable_summary o = None -> o_summary_for_str o = true -> exists t, key_shown_text o sq path k c = Some t.
 Proof. exact default_keys_shown. Qed.
 Print Assumptions C20_default_summaries_show_every_key.
 
